@@ -23,15 +23,13 @@ WRAP = ['-Wl,' + ','.join('--wrap=' + s for s in WRAPPED)]
 
 REQUIRED_THEOREMS = ['OpusProps.C03.' + t for t in (
     'silkSyms_total', 'silkSyms_indices_in_range', 'silkSyms_decode_indices_in_range', 'silkSyms_tables_wellformed',
-    'silkSyms_tables_frozen_eq_repo', 'silkSyms_lsb_loop_exits', 'silkSyms_pulses_fit_int16')]
+    'silkSyms_tables_frozen_eq_repo', 'silkSyms_lsb_loop_exits', 'silkSyms_pulses_fit_int16',
+    'silkSyms_symbols_history_free')]
 UNPROVED = [
-    'silkSyms_symbols_history_free: the symbols read for a frame do not depend on the SILK decoder state left by earlier '
-    'frames/packets (ec_prevSignalType / ec_prevLagIndex are only read under CODE_CONDITIONALLY, i.e. after a frame of the same '
-    'packet wrote them; prev_decode_only_middle only steers reads behind a frame of the same packet). The model is evaluated from '
-    'the zero state for every packet while the harness decodes on running decoders (streams with losses, FEC, mode/channel '
-    'switches), so a dependence on history would show as a disagreement; it is not proved. As a consequence the packet-level '
-    'bound lagIndex in [-16, 277] is not proved either (silkSyms_indices_in_range gives the per-call bound: absolute range or '
-    '-8..+11 around the previous lag index)',
+    'silkSyms_lag_index_packet_bound: lagIndex in [-16, 277] for every frame of every packet. Proved: the per-call bound '
+    '(absolute range or -8..+11 around the previous lag index, silkSyms_indices_in_range) and that conditional coding only ever '
+    'refers to a frame of the same packet (silkSyms_symbols_history_free); not yet combined into the chain-depth invariant '
+    '(at most two conditional steps after an absolute lag) that gives the numeric bound',
     'silkSyms_lockstep (design priority P1): the decoder model reads back exactly the symbols the mirrored encoder calls of '
     'silk_encode_indices / silk_encode_pulses wrote — a corollary of C08 (range coder) that is out of this property\'s scope; '
     'on the implementation it is searched (encoder final range == decoder final range), not proved',
